@@ -71,47 +71,94 @@ theorem projections (vs : List SV) (t : Ty) (h : Typed t vs) :
       intro v hv
       exact (mem_nn.1 hv).2 (h0 v (mem_nn.1 hv).1)
 
-/-- every aggregated column is homogeneously typed over all rows -/
-def RowsTyped (ts : List Ty) (rows : List (List SV × List SV)) : Prop :=
+/-- every aggregated column is homogeneously typed over all rows (the key type `κ` is arbitrary: value tuples for
+groupBy, tuples with GROUPED markers for rollup / cube) -/
+def RowsTyped {κ : Type} (ts : List Ty) (rows : List (κ × List SV)) : Prop :=
   ∀ r ∈ rows, r.2.length = ts.length ∧ ∀ (j : Nat) (t : Ty) (v : SV), ts[j]? = some t → r.2[j]? = some v → v = .null ∨ tyOf v = some t
 
 -- OBLIGATION: PysparklingVerif.C14.group_rows
-/-- one output group per distinct key tuple (null being a key value), in first-occurrence order, whose
-accumulators summarise exactly that group's rows -/
-theorem group_rows (ts : List Ty) (rows : List (List SV × List SV)) (h : RowsTyped ts rows) :
+/-- one output group per distinct key (null being a key value), in first-occurrence order, whose
+accumulators summarise exactly that group's rows, in row order -/
+theorem group_rows {κ : Type} [DecidableEq κ] (ts : List Ty) (rows : List (κ × List SV)) (h : RowsTyped ts rows) :
     let g := aggregateSpec ts.length rows
     (g.map (·.1)).Nodup ∧ (∀ k, k ∈ g.map (·.1) ↔ k ∈ rows.map (·.1)) ∧
     ∀ k sts, (k, sts) ∈ g →
-      sts = (List.range ts.length).map fun j => summarize ((rows.filter (·.1 == k)).map fun r => r.2.getD j .null) := by
-  intro g
-  have hg : g = rep (dedupK (rows.map (·.1))) (fun k => colSumm ts.length (rows.filter (·.1 == k))) :=
-    aggregateSpec_rep ts.length rows (fun r hr => (h r hr).1)
-  rw [hg, rep_keys]
-  refine ⟨nodup_dedupK _, fun k => mem_dedupK _ k, fun k sts hks => ?_⟩
-  exact (mem_rep hks).2
+      sts = (List.range ts.length).map fun j => summarize ((rows.filter (·.1 == k)).map fun r => r.2.getD j .null) :=
+  aggregateSpec_groups ts rows h
 
 -- OBLIGATION: PysparklingVerif.C14.aggregate_partition_independent
 /-- the grouped accumulators are the same for EVERY assignment of the rows to partitions (keeping their
 relative order), including empty partitions and partitions where a group has no rows or only nulls -/
-theorem aggregate_partition_independent (ts : List Ty) (parts : List (List (List SV × List SV)))
+theorem aggregate_partition_independent {κ : Type} [DecidableEq κ] (ts : List Ty) (parts : List (List (κ × List SV)))
     (h : RowsTyped ts parts.flatten) :
     aggregate ts.length parts = aggregateSpec ts.length parts.flatten :=
   aggregate_eq_spec ts parts h
 
 -- OBLIGATION: PysparklingVerif.C14.rollup_keys
-/-- rollup adds, for every group, exactly the prefixes of its key (the rest marked GROUPED); cube every
-subset of the key positions -/
+/-- rollup counts a row under exactly the prefixes of its key (the rest marked GROUPED), cube under every subset
+of the key positions; no key twice; and a subtotal key stands for exactly the rows that agree with it on the
+columns that are not rolled up -/
 theorem rollup_keys (key : List SV) :
-    (rollupKeys key).length = key.length + 1 ∧
-    (∀ i, i ≤ key.length → (key.take i).map some ++ List.replicate (key.length - i) none ∈ rollupKeys key) ∧
-    (cubeKeys key).length = 2 ^ key.length ∧
-    (∀ sk ∈ cubeKeys key, sk.length = key.length ∧ ∀ (i : Nat) (v : SV), sk[i]? = some (some v) → key[i]? = some v) := by
-  refine ⟨by simp [rollupKeys], fun i hi => ?_, cubeKeys_length key, cubeKeys_sound key⟩
-  exact List.mem_map.2 ⟨i, List.mem_range.2 (Nat.lt_succ_of_le hi), rfl⟩
+    (rollupKeys key).length = key.length + 1 ∧ (rollupKeys key).Nodup ∧
+    (∀ sk, sk ∈ rollupKeys key ↔ ∃ i, i ≤ key.length ∧ sk = (key.take i).map some ++ List.replicate (key.length - i) none) ∧
+    (cubeKeys key).length = 2 ^ key.length ∧ (cubeKeys key).Nodup ∧
+    (∀ sk, sk ∈ cubeKeys key ↔ matchesKey sk key = true) ∧
+    (∀ sk ∈ rollupKeys key, matchesKey sk key = true) ∧
+    (∀ sk (key' : List SV), sk ∈ rollupKeys key → matchesKey sk key' = true → sk ∈ rollupKeys key') :=
+  ⟨rollupKeys_length key, rollupKeys_nodup key, mem_rollupKeys key, cubeKeys_length key, cubeKeys_nodup key,
+    mem_cubeKeys key, rollupKeys_matches key, fun sk key' => rollupKeys_of_matches key sk key'⟩
 
--- non-vacuity: a group whose second partition holds only nulls
-example : ((aggregate 1 [[([.int 1], [.int 2]), ([.int 1], [.int 4])], [([.int 1], [.null])]]).map fun e => (e.1, e.2.map (·.sum))) =
+-- OBLIGATION: PysparklingVerif.C14.subtotals_are_groupby_subset
+/-- MAIN for rollup / cube (and plain groupBy): whatever the partitioning, the result holds one group per
+subtotal key some row is counted under, and its accumulators — hence EVERY aggregate, the order-sensitive
+first / last / collect_list included — summarise, in row order, exactly the rows whose key agrees with the subtotal
+key on the columns that are not rolled up: the same as grouping by that key subset -/
+theorem subtotals_are_groupby_subset (keysOf : List SV → List (List (Option SV)))
+    (hk : keysOf = groupByKeys ∨ keysOf = rollupKeys ∨ keysOf = cubeKeys)
+    (ts : List Ty) (parts : List (List (List SV × List SV))) (h : RowsTyped ts parts.flatten) :
+    let g := aggregateSub keysOf ts.length parts
+    (g.map (·.1)).Nodup ∧
+    (∀ sk, sk ∈ g.map (·.1) ↔ ∃ r ∈ parts.flatten, sk ∈ keysOf r.1) ∧
+    ∀ sk sts, (sk, sts) ∈ g →
+      sts = (List.range ts.length).map fun j =>
+        summarize ((parts.flatten.filter fun r => decide (sk ∈ keysOf r.1)).map fun r => r.2.getD j .null) := by
+  have hnd : ∀ k, (keysOf k).Nodup := by
+    rcases hk with rfl | rfl | rfl
+    · exact groupByKeys_nodup
+    · exact rollupKeys_nodup
+    · exact cubeKeys_nodup
+  exact aggregateSub_groups keysOf hnd ts parts h
+
+/-- pivoted rows: (group key, pivot value, aggregated values) -/
+def PivotRowsTyped {κ : Type} (ts : List Ty) (rows : List (κ × SV × List SV)) : Prop :=
+  ∀ r ∈ rows, r.2.2.length = ts.length ∧ ∀ (j : Nat) (t : Ty) (v : SV), ts[j]? = some t → r.2.2[j]? = some v → v = .null ∨ tyOf v = some t
+
+-- OBLIGATION: PysparklingVerif.C14.pivot_cells
+/-- MAIN for pivot: whatever the partitioning, there is one output group per distinct key (also for keys none of
+whose rows has a listed pivot value), and the block of accumulators of pivot value number `i` summarises exactly
+the group's rows whose pivot value is `pvs[i]` — the same aggregates, spread over the pivot values -/
+theorem pivot_cells {κ : Type} [DecidableEq κ] (ts : List Ty) (pvs : List SV) (hp : pvs.Nodup)
+    (parts : List (List (κ × SV × List SV))) (h : PivotRowsTyped ts parts.flatten) :
+    let g := aggregatePivot ts.length pvs parts
+    g = aggregatePivotSpec ts.length pvs parts.flatten ∧
+    (g.map (·.1)).Nodup ∧ (∀ k, k ∈ g.map (·.1) ↔ k ∈ parts.flatten.map (·.1)) ∧
+    ∀ k sts, (k, sts) ∈ g → sts.length = pvs.length * ts.length ∧
+      ∀ (i j : Nat) (p : SV), pvs[i]? = some p → j < ts.length →
+        sts[i * ts.length + j]? = some (summarize ((parts.flatten.filter fun r => r.1 == k && r.2.1 == p).map fun r => r.2.2.getD j .null)) := by
+  intro g
+  have _ := hp -- (the closed form holds for any list of pivot values; distinctness is not used)
+  have hg : g = aggregatePivotSpec ts.length pvs parts.flatten := aggregatePivot_eq_spec ts pvs parts h
+  rw [hg]
+  exact ⟨rfl, aggregatePivotSpec_cells ts.length pvs parts.flatten (fun r hr => (h r hr).1)⟩
+
+-- non-vacuity: a group whose second partition holds only nulls; a rollup whose total's `last` is the last ROW
+example : ((aggregate 1 [[(([.int 1] : List SV), [.int 2]), ([.int 1], [.int 4])], [([.int 1], [.null])]]).map fun e => (e.1, e.2.map (·.sum))) =
     [([.int 1], [6])] := by decide +kernel
 example : (summarize [.int 1, .null, .int 3]).m2 = 2 := by decide +kernel
+example : ((aggregateSub rollupKeys 1 [[([.str "A"], [.int 1]), ([.str "B"], [.int 2])], [([.str "A"], [.int 3])]]).map
+    fun e => (e.1, e.2.map (·.last))) =
+    [([none], [some (.int 3)]), ([some (.str "A")], [some (.int 3)]), ([some (.str "B")], [some (.int 2)])] := by decide +kernel
+example : ((aggregatePivot 1 [.str "x", .str "y"] [[(([.int 1] : List SV), SV.str "y", [.int 5]), ([.int 2], .null, [.int 7])]]).map
+    fun e => (e.1, e.2.map (·.n))) = [([.int 1], [0, 1]), ([.int 2], [0, 0])] := by decide +kernel
 
 end PysparklingVerif.C14
